@@ -9,7 +9,8 @@ EXPLANATION = ("Absolute wire values against tables transcribed from the specifi
                "stream-type / setting / capsule / error-code registries and ALPN; the advertised local SETTINGS set and each builder method's "
                "(id, value); exactly one control stream opened first: open uni -> upgrade(StreamHeader::new_control()) -> send_settings before the "
                "worker loop; QPACK field sections: prefix 00 00, only static-indexed / static-name-reference / literal representations, "
-               "pseudo-headers sorted first, request pseudo-header literals, static table rows; stream preamble and datagram prefix writers.")
+               "pseudo-headers sorted first, request pseudo-header literals, static table rows; stream preamble and datagram prefix writers."
+               ' Also (C16-R7/R8/R9): frame payloads are written exactly once under partial writes; every datagram is prefixed by varint(quarter stream id); the QUIC close emitted at termination carries a registered H3 code.')
 NOT_DECIDED = ["bytes produced by quinn / rustls", "Huffman coder output (external crate)"]
 TRUSTED = ["rustc const evaluation and MIR", "spec/h3.json, spec/qpack_static.json transcriptions"]
 
